@@ -273,3 +273,45 @@ Print Assumptions C08_batch_remove_cached.
 Print Assumptions C08_abstract_selection.
 Print Assumptions C08_batch_step.
 Print Assumptions C08_every_history_with_batches.
+
+(** ** A Q variant followed by Close is the plain variant.  Batch.AddQ / RemoveQ / ExchangeQ
+    (Relations.ExchangeBatchQ) and Batch.SetRelationQ do the batch, lock the world and return
+    a query; closing it releases the lock and emits the batch's events.  After the Close the
+    world has the tables, index, pool and nodes of the plain call, is unlocked again, refines
+    the same abstract store, keeps the cache invariant; the Q call itself emits no event and
+    the Close emits exactly the events of the plain call. *)
+From Arche Require Import Proofs.BatchQClose.
+Theorem C08_exchange_q_then_close : forall w A f add rem rel w2 h evs2,
+  R w A -> cache_ok w -> Forall (fun id => id < length (as_reg A)) add -> (add <> [] \/ rem <> []) ->
+  step w (OBatchExchange true (FPlain f) add rem rel) = (w2, Ok (VNat h), evs2) ->
+  exists w' n evs' w3,
+    step w (OBatchExchange false (FPlain f) add rem rel) = (w', Ok (VNat n), evs') /\
+    evs2 = [] /\ step w2 (OQClose h) = (w3, Ok VUnit, evs') /\
+    R w3 (a_map A (table_ents w (World.get_tables w f)) (fun a => a_exchange (as_reg A) a add rem rel)) /\ cache_ok w3 /\
+    w_tables w3 = w_tables w' /\ w_index w3 = w_index w' /\ w_pool w3 = w_pool w' /\ w_nodes w3 = w_nodes w' /\
+    is_locked w3 = false.
+Proof. exact exchange_q_then_close. Qed.
+
+Theorem C08_set_relation_q_then_close : forall w A f rid T w2 h evs2,
+  R w A -> cache_ok w ->
+  step w (OBatchSetRel true (FPlain f) rid T) = (w2, Ok (VNat h), evs2) ->
+  exists w' n evs' w3,
+    step w (OBatchSetRel false (FPlain f) rid T) = (w', Ok (VNat n), evs') /\
+    evs2 = [] /\ step w2 (OQClose h) = (w3, Ok VUnit, evs') /\
+    R w3 (a_map A (table_ents w (World.get_tables w f)) (fun a => mkA (a_mask a) T (a_vals a))) /\ cache_ok w3 /\
+    w_tables w3 = w_tables w' /\ w_index w3 = w_index w' /\ w_pool w3 = w_pool w' /\ w_nodes w3 = w_nodes w' /\
+    is_locked w3 = false.
+Proof. exact set_relation_q_then_close. Qed.
+
+Example C08_q_then_close_nonvacuous :
+  let w := run (world_init 2 2 64) (demo_batch_ops ++ [OSetListener (Some (LCallback (mkL 63 None)))]) in
+  let rq := step w (OBatchExchange true (FPlain (FAll 1)) [2] [] None) in
+  let rc := step (fst (fst rq)) (OQClose 0) in
+  let rp := step w (OBatchExchange false (FPlain (FAll 1)) [2] [] None) in
+  snd (fst rq) = Ok (VNat 0) /\ snd rq = [] /\ snd (fst rc) = Ok VUnit /\
+  snd rc = snd rp /\ length (snd rp) = 3 /\
+  w_tables (fst (fst rc)) = w_tables (fst (fst rp)) /\ w_index (fst (fst rc)) = w_index (fst (fst rp)) /\
+  is_locked (fst (fst rq)) = true /\ is_locked (fst (fst rc)) = false.
+Proof. exact demo_q_close. Qed.
+Print Assumptions C08_exchange_q_then_close.
+Print Assumptions C08_set_relation_q_then_close.
